@@ -10,6 +10,36 @@ check("C09", "model_checking",
       "algorithms that use them (C01/C10 checks), not as MeshADT actions.",
       "TLA+ model checking (TLC) + replay of TLC behaviours into the real code + TLC trace validation", "DESIGN.md §5 C09")
 
+check("C01", "model_checking",
+      "The marching-cubes / marching-squares lookup tables exported from the code (cross-checked black-box through the "
+      "public mesher) are model-checked by TLC over EVERY configuration of 1-, 2- and (thorough) 4-cell windows "
+      "(McLocal: closed, fan-connected, oriented, one vertex per active edge) - by locality this covers every solid and "
+      "lattice size; every subset of small lattices / pixel grids and seeded larger ones is meshed by the real code "
+      "(plain, filtered, search, conjugated, coarse-to-fine, Bitmap.Mesh) and judged by TLC (LatticeJudge, Mesh2Judge with "
+      "an exact integer winding number); the other generators are recorded as abstract complexes and judged by "
+      "ComplexJudge (closed, manifold, oriented, Euler characteristic).",
+      "Trusted: TLC, vertex snapping to lattice-edge ids, vertex identity = exact coordinate equality. Integer bounds and "
+      "delta=1 (exact float lattice); non-dyadic spacings only through the generators. Orientation witness for 3-D "
+      "windows is 'normal exits through at least one of the triangle's lattice edges' + closedness (see Lattice3.tla).",
+      "TLA+ model checking of implementation-derived tables (TLC) + TLC judging of real-code outputs", "DESIGN.md §5 C01")
+check("C02", "model_checking",
+      "On every subset of small lattices and seeded larger ones TLC checks that the real marching cubes/squares output "
+      "equals the table-prescribed face set, has exactly one vertex on every active lattice edge and none elsewhere, that "
+      "search-refined vertices are within spacing/2^iters of the harness solid's known dyadic transition and reported "
+      "interior points are contained; 2-D sample-side agreement by an exact integer winding number; dual contouring with "
+      "clipping: one correctly oriented quad per active edge built from the four surrounding cubes, none otherwise, every "
+      "vertex inside its cube (DcJudge), for several worker counts / buffer depths / jitter settings.",
+      "Trusted: TLC, snapping of vertices to lattice edges / cubes. delta=1 lattices; QEF placement and Repair not covered.",
+      "TLC judging of real-code outputs against a TLA+ lattice specification", "DESIGN.md §5 C02")
+check("C12", "model_checking",
+      "The same lattice solids are meshed under GOMAXPROCS 1/2/3/16, with none / exact / randomly over-approximating "
+      "conservative filters, with a coarse-to-fine pre-pass, repeated, and (dual contouring) under several MaxGos and "
+      "every buffer depth on non-square footprints; TLC judges every output against the single table-derived face set, so "
+      "configurations are equal to each other AND correct.",
+      "Trusted: TLC, lattice-edge snapping. Schedules are those the Go runtime produced under the given GOMAXPROCS; the "
+      "all-interleavings part is carried by the protocol specs (spec/pipeline) where present.",
+      "TLC judging of real-code outputs across configurations + TLA+ protocol specs", "DESIGN.md §5 C12")
+
 _pending = "check not built yet in this session (planned, see DESIGN.md §10)"
 for pid in ["C01","C02","C03","C04","C05","C06","C07","C08","C10","C11","C12","C13","C14","C15","C16","C17","C18","C20"]:
     if pid not in CHECKS:
